@@ -733,6 +733,9 @@ func (a *E3) transfer(fn *ssa.Function, instr ssa.Instruction) {
 		}
 		if a.isContainerish(x.Type()) || a.isSpine(x.Type()) || types.IsInterface(x.Type()) {
 			a.set(x, a.get(t))
+		} else if _, isTA := t.(*ssa.TypeAssert); isTA && x.Index == 0 && !isBasicType(x.Type()) {
+			// v, ok := y.([]any): the Go slice / map that was asserted keeps the origin of y
+			a.set(x, a.get(t))
 		} else {
 			a.set(x, oSCALAR)
 		}
@@ -1042,4 +1045,9 @@ func (a *E3) calleeNames(fn *ssa.Function) []string {
 func (a *E3) isPtrField(fa *ssa.FieldAddr) bool {
 	fld := a.structField(fa.X, fa.Field)
 	return fld != nil && a.isContainerPtr(fa.X.Type()) && !a.isSpine(fld.Type()) && a.isFieldIface(fld.Type())
+}
+
+func isBasicType(t types.Type) bool {
+	_, ok := t.Underlying().(*types.Basic)
+	return ok
 }
